@@ -270,6 +270,28 @@ int main(int argc, char **argv)
         }
         vp::bound("large_family", "5 type strings with a 130/200/255/256/384-byte blob or string as first argument: every truncation, byte edits in the header and around every payload boundary");
     }
+    // (2a') many type tags: n = 100..500 tags, mostly valueless (T F N I), with one or two payload-carrying tags at the front, in the middle,
+    //       at index n mod 256 and at the end: the valid message, every truncation of its last 48 bytes, byte edits around the payloads
+    {
+        for(size_t n : {100u, 200u, 254u, 255u, 256u, 257u, 258u, 260u, 300u, 480u}) for(int place = 0; place < 5; ++place) for(char pay : {'s', 'i', 'b'}) {
+            if(!vp::mine(top++)) continue;
+            std::string ts; for(size_t k = 0; k < n; ++k) ts += "TFNI"[k % 4];
+            size_t at = place == 0 ? 0 : place == 1 ? n / 2 : place == 2 ? n % 256 : place == 3 ? n - 1 : n - 2;
+            if(at >= n) at = n - 1;
+            ts[at] = pay; if(place == 4) ts[n - 1] = 's';
+            std::vector<ref::Arg> args;
+            for(char t : ts) if(ref::has_data(t)) { ref::Arg a; a.type = t; a.u32 = 0x01020304u; a.s = "str"; a.b.assign(5, 0x81); a.b_len = 5; args.push_back(a); }
+            std::string base = ref::encode("/many", ts, args);
+            if(base.size() > 600) continue;
+            ref::Decoded d = ref::decode((const uint8_t *)base.data(), base.size());
+            run_one((const uint8_t *)base.data(), base.size(), "manytags");
+            for(size_t p = base.size() > 48 ? base.size() - 48 : 0; p < base.size(); ++p) run_one((const uint8_t *)base.data(), p, "manytags-trunc");
+            std::set<size_t> pos;
+            for(auto &a : d.args) for(long q = (long)a.off - 8; q < (long)a.off + 8; ++q) if(q >= 0 && (size_t)q < base.size()) pos.insert((size_t)q);
+            for(size_t p : pos) for(uint8_t v : SETV) if((uint8_t)base[p] != v) { std::string m = base; m[p] = (char)v; run_one((const uint8_t *)m.data(), m.size(), "manytags-set"); }
+        }
+        vp::bound("many_tags_family", "100,200,254..258,260,300,480 type tags with payload tags s/i/b at 5 places: valid message, truncations of the last 48 bytes, byte edits around the payloads");
+    }
     // (2b) word-exhaustive family: in every valid message of a tiny family, each aligned 4-byte word in turn is replaced by
     //      ALL 12^4 words over the alphabet (reaches what needs two or three deviations inside one word, e.g. an empty
     //      type tag string followed by non-zero padding)
